@@ -1,17 +1,28 @@
-// seqdump prints a generated program (debugging aid): seqdump <seed> <index> [clean]
+// seqdump writes a generated program into a directory (debugging aid): seqdump <dir> <seed> <index> [clean] [c08]
 package main
 
 import (
 	"fmt"
 	"os"
+	"path/filepath"
 
 	"verif/internal/rng"
 	"verif/internal/seqgen"
 )
 
 func main() {
-	o := seqgen.Opts{Funcs: 4, Stmts: 10, Depth: 3, Clean: len(os.Args) > 3, Goroutine: true}
-	p := seqgen.Generate(rng.New(os.Args[1], os.Args[2]), o)
-	fmt.Print(p.Files["main.go"])
+	o := seqgen.Opts{Funcs: 4, Stmts: 10, Depth: 3, Goroutine: true}
+	for _, a := range os.Args[4:] {
+		switch a {
+		case "clean":
+			o.Clean = true
+		case "c08":
+			o.Scenarios, o.Unwind, o.Goexit, o.Native, o.Goroutine = true, true, true, true, false
+		}
+	}
+	p := seqgen.Generate(rng.New(os.Args[2], os.Args[3]), o)
+	for name, c := range p.Files {
+		os.WriteFile(filepath.Join(os.Args[1], name), []byte(c), 0o644)
+	}
 	fmt.Fprintln(os.Stderr, p.Atoms, "atoms")
 }
